@@ -70,7 +70,7 @@ Proof. exact (parse_call_cache cfg st data o B). Qed.
 (* too large (declared length, or after inflation) or an oversize control frame: the loop iteration ends with the
    error and writes exactly one close frame whose payload starts with code 1009 (connection still writable) *)
 Theorem c15_1009 cfg st o st' o' evs e :
-  closed st = false -> cclosed st = false -> 125 <= frame_limit cfg ->
+  closed st = false -> cclosed st = false ->
   step cfg st o = SStop st' o' evs (Some e) -> e = ETooLarge \/ e = ECtlBig ->
   exists k body, close_1009 body /\ evs = [EvWrite (encode_frame (mkf true false 8 (is_client cfg) k body))].
 Proof. exact (step_too_large cfg st o st' o' evs e). Qed.
